@@ -509,11 +509,65 @@ fn swap_case_ast(n: &Node, rng: &mut Rng) -> Node {
     }
 }
 
+/// flag q (+ i): is_match and the match spans of a literal pattern against a naive window search
+fn literal_ci_check(c: &Case, obs: &mut Obs) -> Outcome {
+    let lit: Vec<char> = c.pattern.chars().collect();
+    let inp: Vec<char> = c.input.chars().collect();
+    let ci = c.flags.contains('i');
+    if lit.is_empty() {
+        return Outcome::Inconclusive("empty_literal");
+    }
+    if ci && lit.iter().chain(inp.iter()).any(|x| !crate::uoracle::case_regular(*x)) {
+        return Outcome::Inconclusive("character_with_irregular_case_mapping");
+    }
+    let eq = |a: char, b: char| a == b || (ci && crate::uoracle::eq_ci(a, b));
+    let mut want = vec![];
+    let mut k = 0;
+    while k + lit.len() <= inp.len() {
+        if (0..lit.len()).all(|j| eq(lit[j], inp[k + j])) {
+            want.push((k, k + lit.len()));
+            k += lit.len();
+        } else {
+            k += 1;
+        }
+    }
+    let re = match compile_case(c) {
+        Ok(r) => r,
+        Err(Outcome::Inconclusive(_)) => return Outcome::Violated(vec![Finding::new("literal_pattern_rejected", "Err", "a literal pattern always compiles")]),
+        Err(o) => return o,
+    };
+    let got = match api(engine::is_match(&re, &c.input), "is_match") {
+        Ok(b) => b,
+        Err(o) => return o,
+    };
+    obs.count(if want.is_empty() { "literal_oracle_false" } else { "literal_oracle_true" });
+    if got != !want.is_empty() {
+        return Outcome::Violated(vec![Finding::new(if got { "is_match_false_positive" } else { "is_match_false_negative" }, format!("{}", got), format!("{} (naive case-blind window search)", !want.is_empty()))]);
+    }
+    // (under flag q the replacement string is literal too, so spans come from analyze)
+    let spans = match api(engine::analyze(&re, &c.input), "analyze") {
+        Ok(Ok(v)) => analyze_spans(&v),
+        Ok(Err(e)) => return Outcome::Violated(vec![Finding::new("literal_analyze_rejected", format!("Err({})", e.name()), "Ok")]),
+        Err(o) => return o,
+    };
+    if spans != want {
+        return Outcome::Violated(vec![Finding::new("literal_spans_differ", format!("{:?}", spans), format!("{:?}", want))]);
+    }
+    if ci && !want.is_empty() && lit.iter().any(|x| case_partner(*x).is_some()) {
+        obs.count("literal_case_blind_matches");
+        obs.nontrivial(c.key());
+    }
+    Outcome::Held
+}
+
 impl Monitor for C11 {
     fn rule(&self) -> &'static str {
         "cases = (pattern, input) over alphabets of letters with one-to-one simple case mappings (ASCII without k/K, Latin-1, Greek, Cyrillic, Deseret) mixed with case-less characters; (a) differential: is_match and spans vs the reference model with flag i; (b) metamorphic, oracle-free: case-swapping input characters or pattern letters never changes is_match / spans under i; a match without i is a match with i; without i a letter does not match its counterpart. Non-trivial: AST >= 2 nodes and the input contains a cased letter."
     }
     fn check(&self, c: &Case, obs: &mut Obs) -> Outcome {
+        if c.aux.as_deref() == Some("literal") {
+            return literal_ci_check(c, obs);
+        }
         let ast = match ast_of(c) {
             Some(a) => a,
             None => return Outcome::Inconclusive("no_ast"),
@@ -614,7 +668,34 @@ impl Monitor for C11 {
                 emit(Case::new(&ast, fl, &inp));
             }
         }
-        J::obj().with("random_patterns_this_shard", J::u(n)).with("alphabet", J::s(&alpha.iter().collect::<String>()))
+        // flag i combined with flag q: the literal is compared case-blind as well; oracle: a
+        // window of the input whose characters are pairwise case variants of the literal's
+        let nl = w.share(20_000, 500_000);
+        let letters = ci_alphabet();
+        for _ in 0..nl {
+            let len = 1 + rng.below(4);
+            let lit: String = (0..len).map(|_| if rng.chance(1, 6) { *rng.pick(&['.', '*', '(', '[', '$', ' ', '1']) } else { *rng.pick(&letters) }).collect();
+            let lit: String = if rng.chance(1, 2) { swap_case_str(&lit, &mut rng) } else { lit };
+            let fl = *rng.pick(&["qi", "iq", "qi", "q", "qix"]);
+            for _ in 0..2 {
+                let mut inp = String::new();
+                for _ in 0..rng.below(3) {
+                    inp.push(*rng.pick(&extra));
+                }
+                if rng.chance(3, 4) {
+                    inp.push_str(&if rng.chance(2, 3) { swap_case_str(&lit, &mut rng) } else { lit.clone() });
+                } else {
+                    inp.extend(lit.chars().rev());
+                }
+                for _ in 0..rng.below(3) {
+                    inp.push(*rng.pick(&extra));
+                }
+                let mut c = Case::raw(&lit, fl, &inp);
+                c.aux = Some("literal".to_string());
+                emit(c);
+            }
+        }
+        J::obj().with("random_patterns_this_shard", J::u(n)).with("literal_patterns_this_shard", J::u(nl)).with("alphabet", J::s(&alpha.iter().collect::<String>()))
     }
     fn corpus(&self) -> Vec<Case> {
         raw(&[("\\s*\\n", "i", "\n"), ("1*1", "i", "1"), ("a*A", "i", "a"), ("\\d*1", "i", "1"), ("[a-[\\s1]]", "i", "A"), ("[b-d]+x", "i", "BCDX"), ("(a)\\1", "i", "aA"), ("\u{10400}+", "i", "\u{10428}"), ("[^a]", "i", "A"), ("abc", "", "ABC")])
